@@ -139,3 +139,12 @@ package xsurveyor
 //@ func (*socket).SendMsg
 //@   ghost wasclosed = s.closed at call:Lock#1
 //@   ensures wasclosed ==> result == protocol.ErrClosed
+
+// ---- generated wrapper contracts (tools/gen_wrapper_contracts.py) ----
+//@ func NewSocket
+//@   ghost pr = result at call:NewProtocol#1
+//@   ghost so = result at call:MakeSocket#1
+//@   before call:NewProtocol#1 assert callee_is("protocol/xsurveyor.NewProtocol")
+//@   before call:MakeSocket#1 assert arg0 == pr
+//@   ensures isnil(result1) && result0 == so
+// ---- end generated wrapper contracts ----
